@@ -89,7 +89,7 @@ func TestVerif(t *testing.T) {
 	// on one subject with a pre-existing referrer, with at most one injected index failure
 	ex := 0
 	for _, skip := range []bool{false, true} {
-		for _, kinds := range [][]string{{"push", "push"}, {"push", "delete"}, {"delete", "delete"}} {
+		for _, kinds := range [][]string{{"push", "push"}, {"push", "delete"}, {"delete", "delete"}, {"repush", "delete"}} {
 			ex += exploreE2E(t, kinds, skip, 1, run.Scale(400, 20000))
 		}
 		if run.Thorough() {
@@ -224,8 +224,24 @@ func xLine(c *E2ECase, res *E2EResult, s int) (string, string, bool) {
 			if o.Kind == "delete" {
 				sign = "~"
 			}
-			specs = append(specs, fmt.Sprintf("%s%d:0:0", sign, o.Man+1))
-			rs = append(rs, fmt.Sprintf("%d=%s", len(rs), res.Ops[o.ID].Outcome))
+			// a Delete that got past the index update (its manifest DELETE was issued) and then
+			// failed reports the manifest-level error; the result of its index update is not
+			// observable any more: marked (payload 9), printed as "*" by both sides
+			hidden := false
+			if o.Kind == "delete" && res.Ops[o.ID].Outcome == "err" {
+				for _, e := range res.Events {
+					if e.Op == o.ID && e.Class == "man-del" {
+						hidden = true
+					}
+				}
+			}
+			if hidden {
+				specs = append(specs, fmt.Sprintf("%s%d:0:9", sign, o.Man+1))
+				rs = append(rs, fmt.Sprintf("%d=*", len(rs)))
+			} else {
+				specs = append(specs, fmt.Sprintf("%s%d:0:0", sign, o.Man+1))
+				rs = append(rs, fmt.Sprintf("%d=%s", len(rs), res.Ops[o.ID].Outcome))
+			}
 		}
 	}
 	if len(specs) == 0 {
@@ -308,7 +324,10 @@ func exploreE2E(t *testing.T, kinds []string, skipGC bool, maxFaults, limit int)
 	var ops []Op
 	del := 0
 	for i, k := range kinds {
-		if k == "delete" && del < 2 {
+		if k == "repush" {
+			// the live, listed manifest 0 is pushed again (concurrently with whatever else names it)
+			ops = append(ops, Op{ID: i, Kind: "push", Man: 0})
+		} else if k == "delete" && del < 2 {
 			ops = append(ops, Op{ID: i, Kind: "delete", Man: del})
 			del++
 		} else {
